@@ -66,6 +66,9 @@ func Profiles(prop string) []Profile {
 			{MinN: 2, MaxN: 8, Steps: 30},
 			{MinN: 2, MaxN: 7, Steps: 40, Dups: true},
 			{MinN: 2, MaxN: 6, Steps: 30, Routes: 6},
+			// hop limits at the boundary (limit = diameter and its neighbours) on trees and chains
+			{MinN: 2, MaxN: 7, Steps: 25, Tree: true, Limits: 3},
+			{MinN: 2, MaxN: 7, Steps: 25, Chain: true, Limits: 3, Dups: true},
 		}
 	case "C13":
 		return []Profile{
@@ -79,6 +82,9 @@ func Profiles(prop string) []Profile {
 			{MinN: 3, MaxN: 6, Steps: 60, Dynamic: true},
 			{MinN: 3, MaxN: 6, Steps: 60, Dynamic: true, Dups: true},
 			{MinN: 2, MaxN: 6, Steps: 50, Dynamic: true, Expiry: true, Dups: true},
+			// small uniform hop limits with connects/replays: relays exactly at the limit
+			{MinN: 4, MaxN: 7, Steps: 60, Dynamic: true, Limits: 1},
+			{MinN: 4, MaxN: 7, Steps: 50, Dynamic: true, Limits: 3, Dups: true},
 		}
 	case "C15":
 		return []Profile{
@@ -137,12 +143,40 @@ func Main(t *testing.T, prop string) {
 			os.WriteFile(filepath.Join(c.OutDir, "dump_"+cs.Name+".json"), b, 0o644)
 		}
 	}
+	// concurrent part of C11 (runs last: it has no model case, so the indices of cases.v stay aligned)
+	stress := func(rounds int) {
+		cs := &Case{Name: "stress-concurrent-copies", N: rounds}
+		c.Case("stress-concurrent-copies", true, cs)
+		c.Count("stress-rounds")
+		for _, copies := range []int{2, 3} {
+			if d := StressConcurrentCopies(rounds/2, copies); d != "" {
+				c.Fail("processed-twice-concurrently", d, cs)
+			}
+		}
+	}
+	// C14 scenario outside the model (no model case: runs last)
+	scenarioUnreadable := func() {
+		cs := &Case{Name: "scenario-unreadable-path-replay", N: 3}
+		c.Case(cs.Name, true, cs)
+		c.Count("scenario")
+		for _, ahead := range []int{0, 3, 100} {
+			for _, f := range ScenarioUnreadablePathReplay(ahead) {
+				c.Fail(f.Sig, fmt.Sprintf("[%s, relay counter %d ahead] %s", cs.Name, ahead, f.Detail), cs)
+			}
+		}
+	}
 	if c.Replay != "" {
 		var cs Case
 		if err := c.ReadReplay(&cs); err != nil {
 			panic(err)
 		}
-		one(&cs, nil)
+		if cs.Name == "stress-concurrent-copies" {
+			stress(cs.N)
+		} else if cs.Name == "scenario-unreadable-path-replay" {
+			scenarioUnreadable()
+		} else {
+			one(&cs, nil)
+		}
 	} else {
 		for _, w := range Witnesses(prop) {
 			one(w, nil)
@@ -169,6 +203,12 @@ func Main(t *testing.T, prop string) {
 				}
 			}
 			c.Res.Extra["exhaustive"] = "all connected labelled topologies on 2..5 nodes (one seeded schedule each)"
+		}
+		if prop == "C11" {
+			stress(c.N(6000, 30000))
+		}
+		if prop == "C14" {
+			scenarioUnreadable()
 		}
 	}
 	if full {
